@@ -108,6 +108,7 @@ type state struct {
 	// set when an empty alignment may remember a previous length (FilterLength,
 	// Deduplicate use the sequence-set Clear): under-documented corner, lenient
 	staleLen bool
+	hadRows  bool // the container held at least one row since its creation / last Clear
 }
 
 type keptContainer struct {
@@ -169,7 +170,10 @@ func (s *state) observe(op string) bool {
 		return bad("iteratechar", "IterateChar disagrees with the model")
 	}
 	var ita gen.Rows
-	sb.IterateAll(func(n string, q []uint8, c string) bool { ita = append(ita, gen.Seq{Name: n, Seq: string(q)}); return false })
+	sb.IterateAll(func(n string, q []uint8, c string) bool {
+		ita = append(ita, gen.Seq{Name: n, Seq: string(q)})
+		return false
+	})
 	if !h.EqRows(ita, exp) && len(exp) > 0 {
 		return bad("iterateall", "IterateAll disagrees with the model")
 	}
@@ -264,8 +268,15 @@ func (s *state) observe(op string) bool {
 			return bad("length", "Length()=%d, rows have %d residues", L, len(exp[0].Seq))
 		}
 		if len(exp) == 0 && L != -1 {
+			if !s.hadRows {
+				// nothing ever gave this alignment a length: it must report "no length" (the next sequence decides)
+				return bad("length", "an alignment that never held a sequence reports Length()=%d instead of -1", L)
+			}
 			s.staleLen = true
 		}
+	}
+	if len(exp) > 0 {
+		s.hadRows = true
 	}
 	return true
 }
@@ -507,6 +518,10 @@ func opConcat(s *state) (string, bool) {
 			o.AddSequence(x.name, q, "")
 		}
 	}
+	if len(m.rows) == 0 && r.Bool() { // both operands empty
+		o, rows = align.NewAlign(m.alpha), nil
+		s.c.Count("concat-both-empty")
+	}
 	s.ops = append(s.ops, fmt.Sprintf("Concat(%s)", h.Show(rows)))
 	lenient := len(m.rows) == 0 || len(rows) == 0
 	before := m.snapshot()
@@ -699,6 +714,21 @@ func opTrimNames(s *state) (string, bool) {
 	var err error
 	label := "TrimNames"
 	size := r.PickInt([]int{2, 3, 4, 5, 10})
+	shared := !auto && r.Chance(0.4)
+	if shared {
+		// the map already served another set of sequences (what `trim name` does over the alignments of one file):
+		// relatives of the current names, sharing their prefixes
+		other := align.NewSeqBag(align.UNKNOWN)
+		for _, x := range before {
+			other.AddSequence(x.Name+r.PickStr([]string{"q", "_b", "zz"}), "A", "")
+		}
+		if e := other.TrimNames(nm, size); e != nil {
+			nm = map[string]string{}
+			shared = false
+		} else {
+			s.c.Count("trimnames-shared-map")
+		}
+	}
 	if auto {
 		label = "TrimNamesAuto"
 		cur := r.PickInt([]int{0, 1, 9, 99})
@@ -722,6 +752,17 @@ func opTrimNames(s *state) (string, bool) {
 	if !uniqueStrings(names) {
 		s.fail(label+":not-unique", "trimmed names are not pairwise distinct: %q", names)
 		return label, false
+	}
+	if shared {
+		// short names are unique over everything the map has served ("previous short names are taken into account")
+		seen := map[string]string{}
+		for k, v := range nm {
+			if o, dup := seen[v]; dup {
+				s.fail(label+":shared-map-short-name-twice", "the shared name map gives the short name %q to both %q and %q", v, o, k)
+				return label, false
+			}
+			seen[v] = k
+		}
 	}
 	for i := range got {
 		if got[i].Seq != before[i].Seq {
@@ -1153,6 +1194,7 @@ func opClear(s *state) (string, bool) {
 	s.sb.Clear()
 	s.m.rows = nil
 	s.staleLen = false
+	s.hadRows = false
 	return "Clear", true
 }
 
@@ -1481,6 +1523,8 @@ func main() {
 		mon.Floor("op:"+op, 20)
 	}
 	mon.Floor("start:empty", 20)
+	mon.Floor("concat-both-empty", 20)
+	mon.Floor("trimnames-shared-map", 50)
 	mon.Floor("start:policy0", 50)
 	mon.Floor("start:policy1", 50)
 	mon.Floor("start:policy2", 50)
